@@ -74,7 +74,7 @@ def infer_history(ctx, rng, n_ops=7):
     queue = []
     def fake_optimize(**kw):
         return queue.pop(0)
-    orig = I.Inference._optimize
+    orig = I.Inference.__dict__['_optimize']   # the staticmethod object (the attribute access would unwrap it)
     I.Inference._optimize = staticmethod(fake_optimize)
     try:
         def mk():
@@ -123,6 +123,77 @@ def infer_history(ctx, rng, n_ops=7):
     ctx.count('infer-histories')
     if model != real:
         ctx.corr_break('infer-history', ops=ops, model=model, real=real)
+
+
+def infer_labels(ctx, rng):
+    """`Inference._run` with named parameters: which name every coordinate of the positional optimiser gets.
+    `scipy.optimize.minimize` (as seen from phasegen.inference) is replaced by a fake that records the start vector and
+    the box list it is given, evaluates the objective once at the point it returns (recording the labelled dict the loss
+    wrapper builds from the positional vector) and returns a point INSIDE the positional boxes with a loss drawn from the
+    rng.  Compared with the driver's `inferlab r …`: the key order of the boxes and of the labels of every run, and the
+    labelled `params_inferred`, `loss_inferred`, `loss_runs`."""
+    pg = C.import_phasegen()
+    import phasegen.inference as I
+    n_par = rng.choice([2, 2, 3])
+    names = rng.sample(['N', 'm', 'a', 't0', 'g'], n_par)
+    # pairwise distinct (disjoint) boxes with integer end points: a box identifies its key
+    bounds = {}
+    for j, k in enumerate(names):
+        lo = 10 * rng.randrange(5) + 50 * j
+        bounds[k] = (float(lo), float(lo + rng.randint(1, 5)))
+    def inside(box):
+        return Fraction(int(box[0])) + Fraction(int(box[1] - box[0])) * Fraction(rng.randint(0, 8), 8)
+    given = rng.random() < 0.85
+    x0 = None
+    if given:
+        order = names[:]
+        rng.shuffle(order)
+        x0 = {k: float(inside(bounds[k])) for k in order}
+    n_runs = rng.randint(1, 4)
+    calls, labelled = [], []
+    def coal(**kw):
+        labelled.append(dict(kw))
+        return pg.Coalescent(n=2)
+    def fake_minimize(fun, x0, method=None, bounds=None, options=None, **kw):
+        x = [inside(b) for b in bounds]
+        f = Fraction(rng.randint(0, 5), rng.choice([1, 2]))
+        calls.append(dict(start=[float(v) for v in x0], boxes=[tuple(map(float, b)) for b in bounds], x=x, f=f))
+        n0 = len(labelled)
+        fun(np.array([float(v) for v in x]))
+        calls[-1]['labels'] = list(labelled[n0].keys()) if len(labelled) > n0 else None
+        calls[-1]['labelled'] = dict(labelled[n0]) if len(labelled) > n0 else None
+        return _Res([float(v) for v in x], float(f))
+    orig = I.opt.minimize
+    I.opt.minimize = fake_minimize
+    try:
+        inf = pg.Inference(bounds=dict(bounds), x0=None if x0 is None else dict(x0), coal=coal, loss=lambda c, o: 0.0,
+                           n_runs=n_runs, parallelize=False, pbar=False, seed=rng.randrange(10 ** 6), cache=False)
+        x0_used = dict(inf.x0)
+        inf._run()
+    finally:
+        I.opt.minimize = orig
+    def key_of(box):
+        hit = [k for k, b in bounds.items() if tuple(map(float, b)) == box]
+        return hit[0] if len(hit) == 1 else f'?{box}'
+    boxes = '|'.join(','.join(key_of(b) for b in c['boxes']) for c in calls)
+    labels = '|'.join(','.join(c['labels'] or ['?']) for c in calls)
+    params = ','.join(f'{k}={C.rs(C.frac(v))}' for k, v in inf.params_inferred.items())
+    real = (f"params={params} loss={C.rs(C.frac(inf.loss_inferred))} runs={','.join(C.rs(C.frac(v)) for v in inf.loss_runs)} "
+            f"boxes={boxes} labels={labels}")
+    line = (f"inferlab r {','.join(bounds.keys())} {','.join(f'{k}={C.rs(C.frac(v))}' for k, v in x0_used.items())} {n_runs - 1} "
+            + ' '.join(f"{C.rs(c['f'])}:{','.join(C.rs(v) for v in c['x'])}" for c in calls))
+    ctx.count('infer-labels')
+    ctx.count('infer-labels-x0-order-differs' if list(x0_used) != list(bounds) else 'infer-labels-x0-order-same')
+    if len(calls) != n_runs:
+        ctx.corr_break('infer-labels', why='number of optimiser calls', n_runs=n_runs, calls=len(calls))
+        return
+    model = C.driver().ask(line)
+    if model != real:
+        ctx.corr_break('infer-labels', request=line, model=model, real=real, bounds={k: list(b) for k, b in bounds.items()},
+                       x0=x0_used, x0_given=given)
+    # the start vector of the first run is x0 in its own order
+    if calls[0]['start'] != list(x0_used.values()):
+        ctx.corr_break('infer-labels', why='start vector of run 0', start=calls[0]['start'], x0=x0_used)
 
 
 # ------------------------------------------------------------------------------------------ validation (C20)
@@ -266,6 +337,8 @@ def one_infer(ctx, i):
     rng = random.Random(f'{ctx.seed}-corr-infer-{i}')
     for _ in range(10):
         infer_history(ctx, rng, n_ops=rng.randint(2, 9))
+    for _ in range(10):
+        infer_labels(ctx, rng)
     ctx.case(dict(kind='infer-histories', batch=i), f'infer-{i}')
 
 
